@@ -73,11 +73,14 @@ struct Cfg {
     loop_fuel: String,
     /// `x.m(a, b);` statements that mutate a local list: method -> template of the new value (`@k ` prefix: argument k is the list, not the receiver)
     stmt_methods: BTreeMap<String, String>,
+    /// Rust enums translated to Lean inductives of the same name with the same constructor names
+    enums: BTreeSet<String>,
     tail: Option<String>,
 }
 
 fn default_methods() -> BTreeMap<String, String> {
     let mut m = BTreeMap::new();
+    m.insert("flat_map".into(), "(List.flatMap {1} {0})".into());
     for id in ["clone", "into", "to_owned", "borrow", "copied", "cloned", "as_ref", "to_vec", "into_iter", "iter", "collect"] {
         m.insert(id.to_string(), "{0}".to_string());
     }
@@ -429,6 +432,13 @@ impl<'a> Tr<'a> {
                 if full == "f64::NEG_INFINITY" {
                     return Ok("(fneginf : K)".into());
                 }
+                if p.path.segments.len() >= 2 {
+                    // `Enum::Variant` of an enum listed in "enums"
+                    let pre = p.path.segments[p.path.segments.len() - 2].ident.to_string();
+                    if self.cfg.enums.contains(&pre) {
+                        return Ok(format!("{}.{}", pre, p.path.segments.last().unwrap().ident));
+                    }
+                }
                 Err(format!("unsupported path `{}`", full))
             }
             Expr::Binary(b) => {
@@ -578,6 +588,13 @@ impl<'a> Tr<'a> {
                 }
                 if let Some(t) = self.cfg.fns.get(&fname).or_else(|| self.cfg.fns.get(&last)) {
                     return fill(t, &args);
+                }
+                if let Expr::Path(p) = &*c.func {
+                    // `Enum::Variant(args)` of an enum listed in "enums"
+                    let n = p.path.segments.len();
+                    if n >= 2 && self.cfg.enums.contains(&p.path.segments[n - 2].ident.to_string()) {
+                        return Ok(format!("({}.{} {})", p.path.segments[n - 2].ident, last, args.join(" ")));
+                    }
                 }
                 if last == "Coord2" && args.len() == 2 {
                     return Ok(format!("(V2.mk {} {})", args[0], args[1]));
@@ -1618,6 +1635,11 @@ fn main() {
                     if let Some(v) = b.as_i64() {
                         cfg.int_consts.insert(norm(a), v);
                     }
+                }
+            }
+            for src in [m, t] {
+                if let Some(a) = src.get("enums").and_then(|x| x.as_array()) {
+                    cfg.enums.extend(a.iter().filter_map(|x| x.as_str().map(|s| s.to_string())));
                 }
             }
             cfg.drop_fields = t.get("drop_fields").and_then(|x| x.as_array()).map(|a| a.iter().filter_map(|x| x.as_str().map(|s| s.to_string())).collect()).unwrap_or_default();
